@@ -194,6 +194,8 @@ let run (op : string) (args : S.t list) : S.t =
   | "is_identity", [g] -> sx_bool (is_identity d (gate_of_sexp g))
   | "get_matrix", [n; g] -> sx_result sx_mat (get_matrix d (z_of_sexp n) (gate_of_sexp g))
   | "circuit_matrix", [n; ss] -> sx_result sx_mat (circuit_matrix d (z_of_sexp n) (stmts_of_sexp ss))
+  | "kraus", [n; outs; ss] ->
+      sx_result sx_mat (kraus_gen d (z_of_sexp n) (list_of_sexp bool_of_sexp outs) (stmts_of_sexp ss))
   | "check_replacement", [g; repl] ->
       sx_result (fun () -> atom "accepted") (check_replacement d (gate_of_sexp g) (list_of_sexp gate_of_sexp repl))
   | "compare_gates", [g1; g2] -> sx_result sx_bool (compare_gates d (gate_of_sexp g1) (gate_of_sexp g2))
